@@ -39,6 +39,8 @@ def closeout_quantity(chk):
     for n in sym.walk(q0):
         if n[0] == "ite":
             c = sym.canon(n[1])
+            if c[0] == "not":
+                c = c[1]
             cands = [c] + (list(c[1:]) if c[0] in ("and", "or") else [])
             for a in cands:
                 if a[0] == "zero" and sym.contains(a, lambda x: x == ("param", "amount")) and sym.contains(a, lambda x: x[0] == "fld" and x[2] == R.VALUE):
